@@ -212,7 +212,7 @@ func appSnap(a *objects.Application) *AppSnap {
 		for _, al := range a.GetAllRequests() {
 			as.Asks[al.GetAllocationKey()] = allocSnap(al)
 		}
-		for _, pd := range a.GetAllPlaceholderData() {
+		for _, pd := range a.GetPlaceholderDataCopy() {
 			as.PhData[pd.TaskGroupName] = PhDataSnap{Count: pd.Count, Replaced: pd.Replaced, TimedOut: pd.TimedOut}
 		}
 		as.SortedKeys = a.VerifSortedRequestKeys()
